@@ -158,6 +158,7 @@ def judge_socket(data, opts, chunks, bufsize, end):
                         break
                     items.append((raw, parsed))
                     if mode == 0 and len(data) % 3 == 0 and len(items) == 2:
+                        closed_pos = sock._pos
                         sock.close()  # the application closes its own socket and drains what was received
                         closed = True
                     if len(items) % 3 == 0 and not closed:
@@ -183,16 +184,17 @@ def judge_socket(data, opts, chunks, bufsize, end):
                 break
             pos = j + len(raw)
         if not viol and closed:
-            # received bytes still sitting in the wrapper when end-of-stream was reported must not
-            # hold a complete frame
-            left = bytes(rd.datastream.buffer)
+            # what had been received when the socket was closed is delivered as it would be from a
+            # file holding those bytes (a frame only partly received is dropped; whole ones are not)
             try:
-                more, _e = S.read_all(io.BytesIO(left), dict(opts, quitonerror=0), None, limit=4 * len(left) + 50)
+                want, _e = S.read_all(io.BytesIO(data[:closed_pos]), dict(opts, quitonerror=0), None,
+                                      limit=4 * len(data) + 50)
             except S.HarnessHang:
-                more = []
-            if more:
-                viol.append((f"{PROP}|abandoned-in-buffer", f"socket closed by the application: end-of-stream reported with "
-                                                            f"{len(left)} received bytes ({len(more)} complete frames) still buffered"))
+                want = []
+            if len(items) < len(want):
+                viol.append((f"{PROP}|abandoned-in-buffer", f"socket closed by the application after {closed_pos} bytes had been "
+                                                            f"received: {len(items)} items delivered, {len(want)} complete frames "
+                                                            f"were in those bytes"))
         elif not viol and sock._pos < len(data):
             # (None, None) while the peer still had bytes to deliver
             viol.append((f"{PROP}|eof-with-data-left", f"socket transport: end-of-stream reported after {n} items with "
